@@ -160,7 +160,8 @@ class SimSocket(object):
         buf[:len(out)] = out
         w.consumed += len(out)
         ic = sum(1 for e in (w.item_ends or []) if e <= w.consumed)
-        w.rec({"k": "rd", "sock": st.id, "what": "data", "n": len(out), "pos": w.consumed, "ic": ic})
+        w.rec({"k": "rd", "sock": st.id, "what": "data", "n": len(out), "pos": w.consumed, "ic": ic,
+               "fpos": w.consumed - getattr(w, 'http_len', 0)})
         return len(out)
 
     def recv(self, n):
@@ -380,6 +381,7 @@ class World(object):
         self.consumed = 0
         self.stream_bytes = None
         self.item_ends = None
+        self.http_len = 0
         self.rec({"k": "conn", "i": self.ci})
 
     def end_connection(self):
